@@ -249,6 +249,7 @@ func (ex *Exec) runPath(prefix []int8) {
 	ex.covers = map[string]bool{}
 	ex.tags = map[string]string{}
 	ex.panicLbl = "C18.nopanic"
+	ex.otherFailed = false
 	ex.fatalLbl = "C14|C18.nofatal"
 	ex.steps = 0
 	ex.inBg = false
@@ -442,6 +443,9 @@ func (ex *Exec) checkAssert(c *Term, label string) {
 			ex.assertPC(c)
 			ex.modelOK = false
 		}
+		if code == 8 {
+			ex.otherFailed = true
+		}
 		return
 	}
 	if c.IsFalse() {
@@ -449,6 +453,12 @@ func (ex *Exec) checkAssert(c *Term, label string) {
 		st.Checked++
 		st.Failed++
 		ex.recordFailure(label, "ASSERT", "")
+		if ex.prop != "" && !labelHas(label, ex.prop) {
+			// an obligation of another property: reported there; this path goes on without assuming it
+			ex.otherFailed = true
+			ex.setSlot(8)
+			return
+		}
 		ex.end("PRUNED", "assertion concretely false; path ends after recording")
 	}
 	ex.pendingA = append(ex.pendingA, pendingAssert{c: c, label: label, slot: len(ex.trace) - 1})
@@ -532,6 +542,8 @@ func (ex *Exec) checkOne(a pendingAssert) {
 	if r == "sat" && ex.prop != "" && !labelHas(label, ex.prop) {
 		// an obligation of another property failed: do not assume it, so that it cannot mask an
 		// obligation of the property being checked further down this path
+		ex.otherFailed = true
+		ex.trace[a.slot] = 8
 		return
 	}
 	if r == "sat" {
